@@ -42,7 +42,17 @@ struct StateProp : Prop {
 		if (is_c08) {
 			// make sure there are segments and trains to talk about
 			for (auto &b : w.boards) if (b.segs.size() < 2) for (int k = (int) b.segs.size(); k < 3; k++) { cfg::Segment g; g.id = b.id + "sx" + std::to_string(k); int a = 200 + k; for (;;) { bool used = false; for (auto &x : b.segs) if (x.addr == a) used = true; if (!used) break; a++; } g.addr = (uint8_t) a; b.segs.push_back(g); }
-			while (w.trains.size() < 2) { cfg::Train t; t.id = "tx" + std::to_string(w.trains.size()); t.addrl = (uint8_t) (0x70 + w.trains.size()); t.addrh = 0x25; t.steps = 126; w.trains.push_back(t); }
+			while (w.trains.size() < 2) {
+				cfg::Train t; t.id = "tx" + std::to_string(w.trains.size()); t.steps = 126;
+				// a dcc address nobody else in the world uses (a collision makes the configuration invalid)
+				for (int v = 0x2570;; v++) {
+					bool used = false;
+					for (auto &x : w.trains) if (x.addrl == (v & 0xFF) && x.addrh == (v >> 8)) used = true;
+					for (auto &b : w.boards) for (const std::vector<cfg::DccAcc> *lst : {&b.points_dcc, &b.signals_dcc}) for (auto &a : *lst) if (a.addrl == (v & 0xFF) && a.addrh == (v >> 8)) used = true;
+					if (!used) { t.addrl = (uint8_t) (v & 0xFF); t.addrh = (uint8_t) (v >> 8); break; }
+				}
+				w.trains.push_back(t);
+			}
 		}
 		cfg::install(plan, w, r);
 		api::Ids ids = api::collect(w);
